@@ -109,6 +109,16 @@ def gen_case(rng, table):
         case["ret"] = False
     # flag combinations: (return_results, save_all_results) in (T,F) mostly, (T,T) = web interface, (F,T), (F,F)
     case["save"] = rng.random() < 0.30
+    # deep stub (the real run_optimizer_for_country runs; only what it calls is replaced): dyadic fractions so that
+    # percent / 100 is exact; in half of these the per-country computation RAISES for one selected country
+    if rng.random() < 0.12 and case["scenario_option"] and not case["overrides"]:
+        case["deep"] = True
+        case["scenario_option"] = {"scale": "country"}
+        case["fracs_all"] = {c: rng.choice([0.0, 1.0, "nan", rng.randint(1, 192) / 64, rng.randint(1, 192) / 64])
+                             for c in codes}
+        if rng.random() < 0.5:
+            plain = [c for c in l if c in codes]
+            case["raise_for"] = rng.choice(plain) if plain else rng.choice(codes)
     # sequences on ONE runner object: about half of the calls reuse the previous case's runner (runs of 2-3 and more),
     # some go through run_many_options (two inner calls on the same object; the second is the one compared)
     case["reuse"] = rng.random() < 0.55
@@ -131,7 +141,8 @@ def gen_case(rng, table):
 def impl_payload(case):
     return {"list": case["list"], "fracs": case["fracs_all"], "default": 0.0, "scenario_option": case["scenario_option"],
             "overrides": case["overrides"], "ret": case["ret"], "reuse": case.get("reuse", False),
-            "via_many": case.get("via_many", False), "save": case.get("save", False)}
+            "via_many": case.get("via_many", False), "save": case.get("save", False), "deep": case.get("deep", False),
+            "raise_for": case.get("raise_for")}
 
 
 # ------------------------------------------------------------------ Coq term of a case
@@ -179,6 +190,13 @@ def expected_selection(l, codes):
 def audit_case(ctx, case, res, table):
     """checks every clause of C15 on the implementation's answer; returns list of (key, what)"""
     fails = []
+    rf = case.get("raise_for")
+    if rf and "err" not in res and rf in res.get("calls", []):
+        fails.append(("C15:failed-country-silently-skipped@run_optimizer_for_country",
+                      f"the computation for {rf} raised, yet run_model_no_trade(return_results={case['ret']}, "
+                      f"save_all_results={case.get('save', False)}) returned normally without it "
+                      f"({len(res['keys'])} result keys, net_pop {res['net_pop']})"))
+        return fails
     if "err" in res:
         return fails  # rejected runs return nothing; acceptance is the correspondence's business
     if case["overrides"] or any(k != "scale" for k in case["scenario_option"]):
@@ -291,10 +309,18 @@ def run(ctx):
             ctx.tie_ok = False
             ctx.broken.append(f"model does not compile against the regenerated table: {bad}")
         else:
-            terms = [coq_case(c, r) for c, r in zip(cases, res)]
+            # a propagated failure of the (deep-)stubbed optimiser is outside the model: audited only
+            pairs = [(c, r) for c, r in zip(cases, res)
+                     if not (c.get("raise_for") and r.get("err", "").startswith("Other:RuntimeError"))]
+            raised = len(cases) - len(pairs)
+            ctx.notes["raising_country_cases"] = {
+                "cases": sum(1 for c in cases if c.get("raise_for")), "exception_propagated": raised,
+                "by_mode": {f"ret={c['ret']},save={c.get('save', False)}": r.get("err", "returned")
+                            for c, r in zip(cases, res) if c.get("kind") == "raises"}}
+            terms = [coq_case(c, r) for c, r in pairs]
             codes = ctx.coq_codes("c15", IMPORTS, terms, per_file=24 if ctx.quick else 100, defs=DEFS)
             nbad = 0
-            for code, case, r in zip(codes, cases, res):
+            for code, (case, r) in zip(codes, pairs):
                 if code != 0:
                     nbad += 1
                     if nbad <= 3:
@@ -396,6 +422,16 @@ def corpus_cases(table):
     for ret, save in ((True, True), (False, True), (True, True)):
         out.append({"kind": "flags", "list": ["USA", "CHN", "NZL"] if ret else ["!USA"], "fracs_all": dict(half), "reuse": False,
                     "save": save, **dict(base, ret=ret)})
+    # the per-country computation raises for one selected country, in every flag mode (reference: it propagates)
+    for ret in (True, False):
+        for save in (False, True):
+            fr = {c: 0.5 for c in codes}
+            out.append({"kind": "raises", "list": ["USA", "CHN", "NZL"], "fracs_all": fr, "reuse": False, "save": save,
+                        "deep": True, "raise_for": "CHN", **dict(base, ret=ret)})
+    out.append({"kind": "raises", "list": ["!USA"], "fracs_all": {c: 0.25 for c in codes}, "reuse": False, "save": True,
+                "deep": True, "raise_for": "NZL", **base})
+    out.append({"kind": "deep", "list": ["USA", "CHN", "NZL"], "fracs_all": {c: 1.5 for c in codes}, "reuse": False, "save": True,
+                "deep": True, **base})
     # the same selection twice and through run_many_options on one runner object
     for l in (["USA", "CHN"], ["!USA"]):
         fr = dict(half)
